@@ -14,6 +14,12 @@ import (
 	"k8s.io/klog/v2"
 )
 
+// ErrNotThisAddress can be returned by the fetcher passed to GetBeforeUntil. The index keeps only a short
+// hash of each address, so the list being read in an epoch may be the list of another address; only the
+// caller can tell (by looking into the transactions). The entries of that epoch are then dropped, they do
+// not count against the limit, and the search goes on with the next epoch.
+var ErrNotThisAddress = errors.New("the list belongs to another address")
+
 type GsfaReaderMultiepoch struct {
 	epochs []*GsfaReader
 }
@@ -178,6 +184,10 @@ epochLoop:
 			for locIndex, txLoc := range locations {
 				tx, err := fetcher(epochNum, txLoc)
 				if err != nil {
+					if errors.Is(err, ErrNotThisAddress) {
+						delete(transactions, epochNum)
+						continue epochLoop
+					}
 					return nil, fmt.Errorf("error while getting signature at index=%v: %w", txLoc, err)
 				}
 				sig, err := tx.Signature()
